@@ -81,6 +81,7 @@ REVERTS = [
     ('F86-v6-public-key-surplus', 'f25860c', {'C05': ['S05-20:declared-key-material-consumed']}),
     ('F87-mpi-writer-bound', 'e3d856e', {'C05': ['S05-21:mpi-writer-bound']}),
     ('F88-mpi-from-zero-biguint', '59f3208', {'C05': ['S05-22:mpi-normalised']}),
+    ('F89-image-header-lower-bound', '4a32573', {'C05': ['S05-14:image-header-lower-bound']}),
     ('F67-ecdh-zero-padding', '5930fe1', {'C12': ['ecdh:unpad-lower-bound']}),
     ('F68-armor-leading-dashes', 'cfc42e1', {'C10': ['S10-7:leading-text-skipped-to-full-opener']}),
 ]
